@@ -309,6 +309,11 @@ def same_shape_histories(rng, nrand=40, kind="history-same-shape"):
                              "same-shape/%s-probes" % view, kind, view=view))
             out.append(_hist(net(["A >> 2 A", "2 A >> 3 A"]), [["probe", 3], ["coef", "r_2", "r", "A", 1], ["probe", 0]], style,
                              "same-shape/%s-probe-edit-probe" % view, kind, view=view))
+        for view in ("hyper", "bip_int", "bip_str"):   # coefficient edits that change the RANK of S (and nothing countable)
+            out.append(_hist(net(["A >> B", "2 A >> 2 B"]), [["coef", "r_2", "r", "B", 1], ["coef", "r_2", "r", "B", 2]], style,
+                             "same-shape/%s-rank-flip" % view, kind, view=view))
+            out.append(_hist(net(["A + B >> C", "2 A + 2 B >> 2 C", "C >> A + B"]), [["coef", "r_2", "l", "B", 3], ["probe", 1], ["coef", "r_2", "l", "B", 2]],
+                             style, "same-shape/%s-rank-flip-3" % view, kind, view=view))
         for view in ("bip_int", "bip_str"):   # the INPUT is a bipartite graph object whose coefficients are edited in place
             out.append(_hist(net(["A + B <> C", "C >> 2 A"]), [["coef", "r_3", "r", "A", 1], ["coef", "r_1", "l", "B", 2]], style,
                              "same-shape/%s-coef" % view, kind, view=view))
